@@ -160,7 +160,7 @@ func (g *vGen) closeAttr(a *vExpAttr) {
 
 // item appends one template item.
 func (g *vGen) item(maxProps int, last bool) {
-	g.itemOfKind(vChoose(g.tag("kind"), 6), maxProps, last)
+	g.itemOfKind(vChoose("item"+vItoa(g.ctr+1)+".kind", 6), maxProps, last) // the name itemOfKind's tag will have
 }
 
 // itemOfKind appends one template item of the given kind (scripted templates fix the kinds and leave names,
